@@ -32,7 +32,8 @@ def random_ops(rng, n):
             if rng.random() < 0.7:      # restart with the same period
                 ops.append({"op": "pdo_start", "period_us": rng.choice([0, 10000, 250000])})
         elif r == 4:
-            ops.append({"op": "pdo_set", "d": [rng.randrange(256), rng.randrange(256)]})
+            # (values that differ from the previous one in the high nibble only now and then)
+            ops.append({"op": "pdo_set", "d": [rng.choice([rng.randrange(256), 0x05, 0xA5, 0x0F, 0xF0]), rng.randrange(256)]})
         elif r == 5:
             ops.append({"op": "hb_start", "ms": rng.choice([0, 1, 100, 1000, 65535, rng.randrange(65536)])})
         elif r == 6:
@@ -65,11 +66,13 @@ def main():
         cases = []
         for i, b in enumerate(behs):
             cases.append({"ops": b, "modifiable": i % 2 == 0, "nid": 1, "src": "tlc",
-                          "pdomap": ["ltpdo", "ltpdo", "rrpdo", "rrpdo", "rtpdo", "rtpdo", "lrpdo", "lrpdo"][i % 8]})
+                          "pdomap": ["ltpdo", "ltpdo", "rrpdo", "rrpdo", "rtpdo", "rtpdo", "lrpdo", "lrpdo"][i % 8],
+                          "pdolayout": "straddle" if i % 3 == 1 else "plain"})
         for i in range(200 if args.tier == "quick" else 4000):
             cases.append({"ops": random_ops(rng, rng.choice([10, 40, 200])), "modifiable": i % 2 == 0,
                           "nid": rng.choice([1, 5, 100]), "src": "random",
-                          "pdomap": ["ltpdo", "ltpdo", "rrpdo", "rrpdo", "rtpdo", "rtpdo", "lrpdo", "lrpdo"][i % 8]})
+                          "pdomap": ["ltpdo", "ltpdo", "rrpdo", "rrpdo", "rtpdo", "rtpdo", "lrpdo", "lrpdo"][i % 8],
+                          "pdolayout": "straddle" if i % 3 == 1 else "plain"})
     results = run_cases("harness.drv_periodic:run_case", cases, jobs=args.jobs, timeout=120)
     if any(r.get("hang") for r in results):
         raise RuntimeError("driver hang")
